@@ -31,6 +31,7 @@ Print Assumptions C16_sharp_without_close.
    when its dial fails) and the TCP connection after a successful dial; and nowhere in the bridge is a deadline, a read
    limit or a socket option set on a bridged connection - the models have no step that ends a connection by itself - and
    the only goroutines are the copy loops and the frontend's per-connection goroutine (no third writer or reader); the
+   package has no package-level variable (the composed model is per connection: connections share nothing); the
    frontend's dial (the set-up step of the model: it succeeds or fails, it does not stay pending for ever) goes through
    gorilla's DefaultDialer, which gives the handshake up after 45 s *)
 Theorem C16_source_bridge :
@@ -38,6 +39,7 @@ Theorem C16_source_bridge :
   bridgeFrontendCopyLoops = ["defer wg.Done(); io.Copy(backendConn, conn); backendConn.Close()"; "defer wg.Done(); io.Copy(conn, backendConn); conn.Close()"]%string /\
   bridgeBackendDefers = ["cancel()"; "wsConn.Close()"; "backendConn.Close()"]%string /\
   bridgeLimitCalls = [] /\
+  bridgePackageVars = [] /\
   bridgeDialCallees = ["websocket.DefaultDialer.DialContext"; "backendURL.String"; "fmt.Errorf"]%string /\
   bridgeGoroutines = ["Handler: go func"; "Handler: go func"; "tcp-bridge-frontend main: go func"; "tcp-bridge-frontend main: go func"; "tcp-bridge-frontend main: go func"]%string.
 Proof. repeat split; reflexivity. Qed.
